@@ -18,7 +18,7 @@ func init() {
 			"(bound) the candidate list is cut off at the clamped count (len(candidates) >= n => stop, or [:n]); (skip) the skip set holds the requester and every NodePeers id and its miss-edge, plus the registry hit-edge, guard each candidate; " +
 			"(ack) a host reaches the accept channel only on the nil-error edge of Call(ctx with timeout, \"vipnode_whitelist\", requester id) made on that same host's connection, the returned list is built from accept-channel receives only, the collector waits for len(candidates) results, and an error is returned only when nothing was accepted; " +
 			"(test-bypass) skipWhitelist is written only by tests; (driver-filters) in each driver every append to the result is fenced by host flag, kind (unless the query is empty), and LastSeen > now - ExpireInterval, with the documented limit handling; " +
-			"(default) the legacy client endpoint asks for 3 hosts unless NumHosts > 0, and both endpoints pass the requested kind.",
+			"(default) the legacy client endpoint asks for 3 hosts unless NumHosts > 0, and both endpoints pass the requested kind. Round 2: (ack) every Service.Call implementation returns, when not failing, the result of Response.UnmarshalResult, which tests Error first; (setnode-keeps-peers) the tracked peer set survives SetNode in both drivers.",
 		NotDecided: []string{"not decided: counts for concrete populations, arrival orders of acknowledgements, the 'exactly as many as requested when supply allows' clause beyond the over-fetch including len(skip)"},
 	}
 }
